@@ -86,6 +86,7 @@ void stage_angleMod ()
 struct NearTally
 {
     long long simple = 0, nearest = 0, mk_same = 0, mk_other = 0, alt_closer = 0, diff_pi_tie = 0;
+    long long mk_any[4] = {0, 0, 0, 0}; // target order class: static-nonrepeated, static-repeated, rotating-nonrepeated, rotating-repeated
     double    w_rot = 0, w_close = 0;
 };
 
@@ -95,6 +96,7 @@ template <class T> static bool near_T (const std::vector<int>& K1, const std::ve
     typedef typename E::Order Ord;
     const uint64_t            n1 = K1.size () * K1.size () * K1.size (), n2 = K2.size () * K2.size () * K2.size ();
     std::mutex                mu;
+    const bool                allTargets = R ().thorough ();
     bool ok = vf::parallel_chunks (n1 * n2, n2, [&] (uint64_t lo, uint64_t hi, unsigned) {
         NearTally l;
         for (uint64_t idx = lo; idx < hi; ++idx)
@@ -190,10 +192,45 @@ template <class T> static bool near_T (const std::vector<int>& K1, const std::ve
                     }
                     (void) exyz;
                 }
+                // --- makeNear with the target given in EVERY other order (static repeated, rotating, rotating repeated
+                // included): makeNear documents that it converts a target of another order to its own order first
+                // (the re-ordering constructor, judged for all 24x24 pairs in the reorder stage), so the two promises
+                // are unchanged: the rotation of *this stays, every angle ends within pi of the converted target.
+                // Run for the xyzRot triples whose three grid indices are multiples of 3 (all of them in the quick tier); the
+                // quick tier takes the targets from {-10,-1,2,11}^3 (every other element of K2), the thorough tier all of K2^3.
+                if (K1[d1[0]] % 3 == 0 && K1[d1[1]] % 3 == 0 && K1[d1[2]] % 3 == 0 && (allTargets || (d2[0] % 2 == 0 && d2[1] % 2 == 0 && d2[2] % 2 == 0)))
+                    for (int ti = 0; ti < 24; ++ti)
+                    {
+                        const OrderInfo& OT = ORDERS[ti];
+                        if (ti == oi || ti == (oi + 1) % 6) continue; // judged above
+                        const std::string tc = OT.cls ();
+                        E e (x, ord, E::XYZLayout);
+                        E tg (t, (Ord) OT.value);
+                        Vec3<T> txyz = E (tg, ord).toXYZVector ();
+                        e.makeNear (tg);
+                        ++l.mk_any[(OT.frameStatic () ? 0 : 2) + (OT.repeated () ? 1 : 0)];
+                        if (e.order () != ord) R ().fail ("Euler::makeNear.keeps-order", in (O.name), hex4 (O.value), hex4 ((int) e.order ()));
+                        LD ds = 0;
+                        for (int c = 0; c < 3; ++c) ds += nearestDelta<T> (x[c], txyz[c]);
+                        LD d = ref::maxdiff (ref::eulerRef (O, e.x, e.y, e.z), R0);
+                        if (!(d <= ds))
+                            R ().fail ("Euler::makeNear.keeps-rotation.target-in-" + tc + "-order", in (O.name) + " targetOrder=" + OT.name, "rotation unchanged within " + ref::fmtE (ds),
+                                       vf::Msg () << "(" << e.x << " " << e.y << " " << e.z << ") changes it by " << ref::fmtE (d));
+                        int nx[3];
+                        O.nameAxes (nx);
+                        for (int s = 0; s < 3; ++s)
+                        {
+                            LD cl = fabsl ((LD) e[s] - (LD) txyz[nx[s]]);
+                            if (!(cl <= closeBound<T> (txyz[nx[s]])))
+                                R ().fail ("Euler::makeNear.within-pi-of-target.target-in-" + tc + "-order", in (O.name) + " targetOrder=" + OT.name,
+                                           "angle about axis " + std::to_string (nx[s]) + " within pi of " + ref::fmtE (txyz[nx[s]]), vf::Msg () << e[s] << " (|diff| = " << ref::fmtE (cl) << ")");
+                        }
+                    }
             }
         }
         std::lock_guard<std::mutex> g (mu);
         G.simple += l.simple; G.nearest += l.nearest; G.mk_same += l.mk_same; G.mk_other += l.mk_other; G.alt_closer += l.alt_closer; G.diff_pi_tie += l.diff_pi_tie;
+        for (int c = 0; c < 4; ++c) G.mk_any[c] += l.mk_any[c];
         G.w_rot = std::max (G.w_rot, l.w_rot); G.w_close = std::max (G.w_close, l.w_close);
     });
     return ok;
@@ -206,7 +243,7 @@ void stage_near ()
     for (int k = -12; k <= 12; k += (R ().thorough () ? 1 : 3)) K1.push_back (k);
     NearTally G;
     bool      ok = near_T<float> (K1, K2, G) && near_T<double> (K1, K2, G);
-    long long n  = G.simple + G.nearest + G.mk_same + G.mk_other;
+    long long n  = G.simple + G.nearest + G.mk_same + G.mk_other + G.mk_any[0] + G.mk_any[1] + G.mk_any[2] + G.mk_any[3];
     R ().add ("states", G.simple);
     R ().add ("transitions", n);
     R ().add ("evaluations", n);
@@ -214,9 +251,13 @@ void stage_near ()
     R ().cls ("near.some-difference-within-1e-5-of-odd-multiple-of-pi", G.diff_pi_tie);
     R ().cls ("near.makeNear-target-in-other-order", G.mk_other);
     R ().cls ("near.same-order.generic", G.mk_same);
+    R ().cls ("near.makeNear-target-in-static-nonrepeated-order(all four others)", G.mk_any[0]);
+    R ().cls ("near.makeNear-target-in-static-repeated-order", G.mk_any[1]);
+    R ().cls ("near.makeNear-target-in-rotating-nonrepeated-order", G.mk_any[2]);
+    R ().cls ("near.makeNear-target-in-rotating-repeated-order", G.mk_any[3]);
     R ().note_max ("worst nearestRotation rotation change / bound", G.w_rot);
     R ().note_max ("worst |angle - target| / pi after simpleXYZRotation", G.w_close);
-    std::string b = "xyzRot in (k*pi/6)^3, k in [-12,12] step " + std::string (R ().thorough () ? "1" : "3") + ", x target in {-10,-5,-1,0,2,7,11}^3*pi/6, x 6 fixed-axis non-repeated orders, float and double";
+    std::string b = "xyzRot in (k*pi/6)^3, k in [-12,12] step " + std::string (R ().thorough () ? "1" : "3") + ", x target in {-10,-5,-1,0,2,7,11}^3*pi/6, x 6 fixed-axis non-repeated orders, float and double; makeNear targets in all 24 orders for xyzRot on the step-3 grid" + std::string (R ().thorough () ? "" : " and targets in {-10,-1,2,11}^3*pi/6");
     if (ok) R ().stage_done (b); else R ().stage_partial (b);
 }
 
